@@ -113,6 +113,10 @@ func RunModel(conf *cfg.Config, ops []probe.Op, env map[string]string) []Expect 
 			e.Why = "model diverged earlier: " + diverged
 			continue
 		}
+		if op.NoModel {
+			e.Why = "judged by a relation between observations"
+			continue
+		}
 		it.StartOp()
 		var v any
 		var err *ref.ErrM
